@@ -89,11 +89,10 @@ DEP_REQUESTS = {
     # reserved word as a field name of a dependency message (corpus only: the generator aborts)
     ".google.api.ResourceDescriptor": ("google/api/resource.proto", ["type", "pattern", "name_field"]),
     ".google.longrunning.WaitOperationRequest": ("google/longrunning/operations.proto", ["name", "timeout"]),
-    # two repeated scalar fields (corpus only: the sync client of such a method has an IndentationError)
+    # two and more repeated scalar fields (regression for fix: 9d33fc0 — IndentationError in the sync client)
     ".google.protobuf.FileDescriptorProto": ("google/protobuf/descriptor.proto", ["name", "package", "dependency", "public_dependency"]),
 }
-SAFE_DEPS = [k for k in DEP_REQUESTS if k not in (".google.api.ResourceDescriptor", ".google.longrunning.WaitOperationRequest",
-                                                  ".google.protobuf.FileDescriptorProto")]
+SAFE_DEPS = [k for k in DEP_REQUESTS if k not in (".google.api.ResourceDescriptor", ".google.longrunning.WaitOperationRequest")]
 
 # dotted paths below the helper messages that the random stream may use
 SUB_PATHS = {
@@ -111,7 +110,7 @@ SUB_PATHS = {
     "op": ["name", "done", "error"],
     "mask": ["paths"],
 }
-RAW_RISKY = {"status.details", "policy.bindings", "op.error", "mask.paths", "book.mask.paths"}
+RAW_RISKY = {"op.error"}        # a MESSAGE field of a raw owner: open finding, kept rare (replayed from the corpus)
 
 
 def gen_method(r: apigen.Rng, idx: int):
@@ -634,7 +633,6 @@ def raw_keys(want, cross):
 def shape_flags(codec, input_full, sigs, reserved, cross):
     """which excluded shapes (points where the real code is known to leave the statement) a method has"""
     flags = set()
-    shape_flags._n = 0
     paths = declared_paths(sigs)
     terms = list(FIXED_PARAMS)
     for p in paths:
@@ -650,11 +648,6 @@ def shape_flags(codec, input_full, sigs, reserved, cross):
             flags.add("cross-reserved")
         if cross and len(segs) > 1:
             flags.add("cross-dotted")
-        if cross and fd.label == fd.LABEL_REPEATED:
-            nrep = getattr(shape_flags, "_n", 0) + 1
-            shape_flags._n = nrep
-            if nrep >= 2:
-                flags.add("cross-two-repeated")
         term = py_attr(owner, fd, reserved)
         if term in terms:
             flags.add("dup-param")
@@ -672,16 +665,12 @@ def classify(kind, flags, plan=None, msg=""):
         return "cross-package-reserved-name:generator-keyerror"
     if kind == "import-failed" and "dup-param" in flags and "duplicate argument" in msg:
         return "duplicate-parameter-name:syntaxerror"
-    if kind == "import-failed" and "cross-two-repeated" in flags and "IndentationError" in msg:
-        return "cross-package-two-repeated:sync-indentationerror"
     if plan is not None:
         given, falsy = plan[0], plan[1]
         rawrep, rawmsg = plan[2] if len(plan) > 2 else ([], [])
         if "Assignment not allowed" in msg:
             if kind in ("sync-kwargs-raised", "async-kwargs-raised", "sync-async") and any(p in rawmsg for p in given):
                 return "raw-owner-message:assign-attributeerror"
-            if kind in ("sync-kwargs-raised", "sync-async") and any(p in rawrep for p in given + falsy):
-                return "raw-owner-repeated:sync-assign-attributeerror"
         if kind in ("async-kwargs-raised", "sync-async") and "cross-dotted" in flags and "has no" in msg:
             return "async-cross-package-dotted-key:ctor-valueerror"
         if kind in ("async-kwargs-vs-request", "sync-async") and overlapping(given):
@@ -1069,7 +1058,7 @@ CLAIM = dict(
           'value_error_iff_mixed), AttributeError exactly when a given key ends in a field of a RAW protobuf sub-message that protobuf '
           'refuses to assign (attribute_error_iff, async_raw_ok_of_sync); (4) every rendered request.<key> is a keyword-free attribute path that proto-plus resolves to the fields '
           'get_field found, reserved words and keywords in any position included (key_attr_resolves, emit_never_keyword_attr; regression for the '
-          'repaired §9-F2: keyword_segment_regression). Eight *_counterexample theorems pin the inputs '
+          'repaired §9-F2: keyword_segment_regression). Six *_counterexample theorems pin the inputs '
           'where the real code leaves the statement (all reproduced on /repo, see findings/C05.json). Tie: T1 bridge lemmas for RESERVED_NAMES '
           'and keyword.kwlist; T2 the real flattened_fields/_fields_mapping vs the model on generated and unresolvable signatures; T3 the emitted '
           'sync and asyncio clients against a loopback gRPC server (inspect.signature; bytes of kwargs / request / mixed calls decoded under the '
@@ -1083,5 +1072,5 @@ CLAIM = dict(
           'python-level type errors are outside the model (the generator keeps to one oneof member per method and treats well-known types as '
           'leaves). The kwargs==request oracle is not applied to default-valued arguments of dotted keys (presence of the parents is not fixed '
           'by the statement); sync==asyncio is. Requests from a proto sub-package of the API (proto-plus types with a different package tuple) '
-          'are not generated. Client-streaming methods (no flattened parameter at all) are modelled and checked by signature only. Eight known findings are listed in findings/C05.json and replayed from corpus/C05 on every run.'),
+          'are not generated. Client-streaming methods (no flattened parameter at all) are modelled and checked by signature only. Six known findings are listed in findings/C05.json and replayed from corpus/C05 on every run.'),
 )
